@@ -100,7 +100,7 @@ Fixpoint get_files (i : nat) (l : list sexp) : option (list file) :=
   match l with
   | [] => Some []
   | L cs :: r => match get_calls 0 cs, get_files (S i) r with
-                 | Some cs', Some fs => Some ({| f_path := User i; f_toks := []; f_calls := cs' |} :: fs)
+                 | Some cs', Some fs => Some ({| f_path := User i; f_toks := []; f_calls := cs'; f_parses := true |} :: fs)
                  | _, _ => None
                  end
   | _ => None
@@ -175,8 +175,8 @@ Definition eval_effects (fl : flags) (dbefore : bool) (views : list pkg) (real :
   match views with
   | [] => bad_line
   | v :: _ =>
-    let '(ops, out) := run Trunc (fun _ => []) (fun _ => []) fl views in
-    let passed := fst (names_pass fl v) in
+    let '(ops, out) := run true Trunc (fun _ => []) (fun _ => []) fl views in
+    let passed := fst (names_pass true fl v) in
     let orig := map (fun f => map c_name (f_calls f)) (p_files v) in
     let m_names := map (names_after (if p_loads v then passed else [])) (p_files v) in
     let m_touched := touched_users ops in
